@@ -329,6 +329,17 @@ def local_contract(R, order_src, order_dst, pattern, intact):
     return dict(params=params, requires=req, ensures=ens, modifies=['dest'])
 
 
+def compatible_contract(R, oa, ob, nk):
+    """LayoutHandler.compatible: True iff at most one position that is really distributed (process count > 1) holds different
+    dimensions in the two orderings (process counts symbolic)."""
+    diff = [k for k in range(nk) if oa[k] != ob[k]]
+    cnt = ' + '.join('(1 if self._nprocsList[%d] > 1 else 0)' % k for k in diff) or '0'
+    return dict(params={'self': {'__class__': L + '::LayoutHandler', '_nprocsList': ('list', ['int'] * nk)},
+                        'l1': layout_spec(R, oa, 'a'), 'l2': layout_spec(R, ob, 'b')},
+                requires=['self._nprocsList[%d] >= 1' % k for k in range(nk)],
+                ensures=['result == ((%s) < 2)' % cnt], returns='bool', modifies=[])
+
+
 def compatible_pairs(R, npat, rng, count):
     """Random structural cases: two orderings of rank R that differ at exactly one distributed position (pattern drawn too)."""
     import itertools
@@ -385,6 +396,13 @@ def cases(tier, rng=None):
             C3.update(C2)
             C3[L + '::LayoutHandler.' + fn] = transpose_contract(R, oa, ob, pat, intact)
             out.append(dict(label='%s %s grid %s' % (fn, nm, pat), struct=None, key=L + '::LayoutHandler.' + fn, contracts=C3))
+    # compatible(): orderings differing at 0, 1 and 2 of the distributed positions
+    comp = [((0, 3, 1, 2), (0, 2, 1, 3), 2), ((3, 2, 1, 0), (0, 3, 1, 2), 2), ((0, 1, 2), (0, 1, 2), 2), ((0, 1, 2), (1, 0, 2), 2),
+            ((0, 1, 2), (2, 1, 0), 1), ((0, 1), (1, 0), 2), ((0, 1, 2, 3), (3, 2, 1, 0), 2)]
+    for (oa, ob, nk) in (comp[:3] if tier == 'quick' else comp):
+        key = L + '::LayoutHandler.compatible'
+        out.append(dict(label='compatible %s/%s nprocs=%d' % (''.join(map(str, oa)), ''.join(map(str, ob)), nk), struct=None, key=key,
+                        contracts={key: compatible_contract(len(oa), list(oa), list(ob), nk)}))
     # pairs that differ only where nothing is distributed: in-process transposition
     local = [((0, 1, 2, 3), (0, 2, 3, 1), '2'), ((3, 2, 1, 0), (0, 2, 1, 3), '12'), ((0, 1, 2), (1, 2, 0), '1'),
              ((0, 1, 2, 3), (0, 1, 3, 2), '22'), ((0, 1, 2), (0, 2, 1), '2'), ((0, 1), (1, 0), '1'), ((2, 0, 1), (1, 0, 2), '12')]
